@@ -149,7 +149,13 @@ type decoded struct {
 	shown func() string // printable decoded value
 	ptr   uintptr       // memory of the decoded data (B/S only, 0 if empty)
 	ln    int
+	// backing array of the result, res[:cap(res)] (byte strings; for strings the data itself). capLn==0: nothing to alias
+	capPtr uintptr
+	capLn  int
+	grow   func() // appends to the decoded byte string as its owner would (byte strings only)
 }
+
+var growSink []byte
 
 type codec struct {
 	name    string
@@ -256,10 +262,14 @@ func (it Item) codec(info *Info15) codec {
 				write:   func(ow *xbinary.ObjectsWriter) (int, error) { return ow.WriteBytes(x) },
 				decode: func(src []byte, nb bool) decoded {
 					n, r, err := xbinary.UnmarshalBytes(src, nb)
-					d := decoded{n: n, err: err, same: func() bool { return bytes.Equal(r, x) }, shown: func() string { return short(r) }, ln: len(r)}
+					d := decoded{n: n, err: err, same: func() bool { return bytes.Equal(r, x) }, shown: func() string { return short(r) }, ln: len(r), capLn: cap(r)}
 					if len(r) > 0 {
 						d.ptr = uintptr(unsafe.Pointer(unsafe.SliceData(r)))
 					}
+					if cap(r) > 0 {
+						d.capPtr = uintptr(unsafe.Pointer(unsafe.SliceData(r)))
+					}
+					d.grow = func() { growSink = append(r, 0xEE, 0xEE, 0xEE, 0xEE, 0xEE, 0xEE, 0xEE, 0xEE, 0xEE, 0xEE, 0xEE, 0xEE) }
 					return d
 				}}
 		}
@@ -273,6 +283,7 @@ func (it Item) codec(info *Info15) codec {
 				d := decoded{n: n, err: err, same: func() bool { return r == xs }, shown: func() string { return short([]byte(r)) }, ln: len(r)}
 				if len(r) > 0 {
 					d.ptr = uintptr(unsafe.Pointer(unsafe.StringData(r)))
+					d.capPtr, d.capLn = d.ptr, len(r) // an empty string has no data to alias
 				}
 				return d
 			}}
@@ -359,6 +370,11 @@ func run15(c Case15, info *Info15) *vstat.Violation {
 				return vstat.V("xbin:encoding-differs", "%s: Marshal into %d bytes wrote %s, into %d bytes it wrote %s", where, d, short(dst[:size]), size, short(enc))
 			}
 		}
+		// the same sweep on windows big[8:8+d] of a larger array (data in front, spare capacity behind, len < cap):
+		// a short window is rejected like a short buffer and nothing outside dst[:n] (dst[:len] on failure) changes
+		if v := windowSweep(where, cd, enc, info); v != nil {
+			return v
+		}
 		// the stream writer emits the same bytes and the same count
 		var bb bytes.Buffer
 		ow := &xbinary.ObjectsWriter{Writer: &bb}
@@ -376,14 +392,25 @@ func run15(c Case15, info *Info15) *vstat.Violation {
 			}
 			continue
 		}
-		for _, nb := range []bool{false, true} {
-			src := append([]byte(nil), enc...)
-			d := cd.decode(src, nb)
-			if v := checkDecoded(fmt.Sprintf("%s newBuf=%v", where, nb), d, size); v != nil {
-				return v
-			}
-			if v := checkAlias(fmt.Sprintf("%s newBuf=%v", where, nb), d, src, 0, size-cd.body, nb); v != nil {
-				return v
+		// decoded from a source with cap == len and from a window of a larger array (spare capacity, data behind)
+		for form := 0; form < 2; form++ {
+			for _, nb := range []bool{false, true} {
+				src := make([]byte, size, size+form*24)
+				copy(src, enc)
+				for j := size; j < cap(src); j++ {
+					src[:cap(src)][j] = 0xA5
+				}
+				w := fmt.Sprintf("%s newBuf=%v source cap-len=%d", where, nb, cap(src)-len(src))
+				d := cd.decode(src, nb)
+				if v := checkDecoded(w, d, size); v != nil {
+					return v
+				}
+				if v := checkAlias(w, d, src, 0, size-cd.body, nb, append([]byte(nil), src[:cap(src)]...)); v != nil {
+					return v
+				}
+				if v := checkSurvives(w, d, src, 0, size-cd.body, nb); v != nil {
+					return v
+				}
 			}
 		}
 	}
@@ -397,11 +424,25 @@ func run15(c Case15, info *Info15) *vstat.Violation {
 		total += cd.size
 	}
 	buf := make([]byte, total)
+	for j := range buf {
+		buf[j] = canary(j)
+	}
 	var bb bytes.Buffer
 	ow := &xbinary.ObjectsWriter{Writer: &bb}
 	off, wn := 0, 0
 	for i, cd := range cds {
-		n, err := cd.marshal(buf[off:])
+		dst := buf[off:] // the rest of the buffer, or (every other item) a window of exactly the needed length
+		if i%2 == 1 {
+			dst = buf[off : off+cd.size]
+		}
+		n, err := cd.marshal(dst)
+		if err == nil && n == cd.size {
+			for j := off + n; j < total && j < off+n+64; j++ {
+				if buf[j] != canary(j) {
+					return vstat.V("xbin:wrote-outside-dst", "item #%d %s: Marshal at offset %d returned n=%d but changed the byte at offset %d (destination len %d cap %d)", i, cd.name, off, n, j, len(dst), cap(dst))
+				}
+			}
+		}
 		if err != nil || n != cd.size {
 			return vstat.V("xbin:concat-marshal", "item #%d %s: Marshal at offset %d of a %d byte buffer returned (%d, %v), predicted %d", i, cd.name, off, total, n, err, cd.size)
 		}
@@ -436,13 +477,92 @@ func run15(c Case15, info *Info15) *vstat.Violation {
 	if off != total {
 		return vstat.V("xbin:concat-leftover", "sequence of %d items: decoding consumed %d of %d bytes", len(cds), off, total)
 	}
+	pristine := append([]byte(nil), buf...)
 	for i, cd := range cds {
 		if cd.body < 0 {
 			continue
 		}
 		where := fmt.Sprintf("sequence item #%d %s newBuf=%v", i, cd.name, c.Items[i].NB)
-		if v := checkAlias(where, ds[i], buf, offs[i], cd.size-cd.body, c.Items[i].NB); v != nil {
+		if v := checkAlias(where, ds[i], buf, offs[i], cd.size-cd.body, c.Items[i].NB, pristine); v != nil {
 			return v
+		}
+	}
+	// the values decoded with newBuf=true were appended to by now: every item still decodes from the source
+	off = 0
+	for i, cd := range cds {
+		d := cd.decode(buf[off:], false)
+		if v := checkDecoded(fmt.Sprintf("sequence item #%d %s at offset %d, decoded again after the newBuf=true values were grown", i, cd.name, off), d, cd.size); v != nil {
+			return v
+		}
+		off += d.n
+	}
+	for i, cd := range cds {
+		if cd.body < 0 {
+			continue
+		}
+		where := fmt.Sprintf("sequence item #%d %s newBuf=%v", i, cd.name, c.Items[i].NB)
+		if v := checkSurvives(where, ds[i], buf, offs[i], cd.size-cd.body, c.Items[i].NB); v != nil {
+			return v
+		}
+	}
+	return nil
+}
+
+func canary(p int) byte { return byte(p*37+11) | 1 }
+
+// windowSweep: Marshal into big[8:8+d] for every d in 0..size+1, big being 8 canary bytes, size+1 window bytes and
+// 16 more canary bytes. The windows grow, so whatever a call may legitimately touch (dst[:len(dst)]) is never part of
+// a later "outside" region and no byte has to be restored. Every rejected call costs an error value in the library,
+// so for sizes above 2048 (where the len == cap sweep already visits every length) the windows are the lengths
+// 0..64, size-64..size+1 and every (size/64)-th one in between; the whole outside region is compared after each call.
+func windowSweep(where string, cd codec, enc []byte, info *Info15) *vstat.Violation {
+	size := cd.size
+	total := 8 + size + 1 + 16
+	big := make([]byte, total)
+	for j := range big {
+		big[j] = canary(j)
+	}
+	pristine := append([]byte(nil), big...)
+	stride := 1
+	if size > 2048 {
+		stride = size / 64
+	}
+	for d := 0; d <= size+1; d++ {
+		if stride > 1 && d > 64 && d+64 < size && d%stride != 0 {
+			continue
+		}
+		dst := big[8 : 8+d]
+		n, err := cd.marshal(dst)
+		keep := d
+		if d < size {
+			info.ShortDst++
+			if err == nil {
+				return vstat.V("xbin:short-dst-accepted", "%s: Marshal into a window of %d bytes with capacity %d (needs %d) returned (%d, nil)", where, d, cap(dst), size, n)
+			}
+			if n != 0 {
+				return vstat.V("xbin:short-dst-count", "%s: Marshal into a window of %d bytes with capacity %d (needs %d) failed but returned n=%d, want 0", where, d, cap(dst), size, n)
+			}
+		} else {
+			if err != nil || n != size {
+				return vstat.V("xbin:dst-rejected", "%s: Marshal into a window of %d bytes with capacity %d (needs %d) returned (%d, %v)", where, d, cap(dst), size, n, err)
+			}
+			if !bytes.Equal(dst[:size], enc) {
+				return vstat.V("xbin:encoding-differs", "%s: Marshal into a window of %d bytes wrote %s, into a buffer of %d bytes %s", where, d, short(dst[:size]), size, short(enc))
+			}
+			keep = n
+		}
+		lo := 8 + keep // first byte that must be untouched
+		bad := -1
+		if !bytes.Equal(big[:8], pristine[:8]) {
+			bad = 0
+		} else if !bytes.Equal(big[lo:], pristine[lo:]) {
+			bad = lo
+		}
+		if bad >= 0 {
+			for bad < total && big[bad] == pristine[bad] {
+				bad++
+			}
+			return vstat.V("xbin:wrote-outside-dst", "%s: Marshal into a window of %d bytes with capacity %d (needs %d) returned (%d, %v) and changed the byte at window offset %d", where, d, cap(dst), size, n, err, bad-8)
 		}
 	}
 	return nil
@@ -461,22 +581,39 @@ func checkDecoded(where string, d decoded, size int) *vstat.Violation {
 	return nil
 }
 
-// checkAlias: the item was decoded from src[start:] and has a prefix of `prefix` bytes. newBuf=false -> the result
-// is exactly src[start+prefix:][:len]; newBuf=true -> the result does not overlap src and survives flipping every
-// byte of the item's encoding in src (which is left flipped).
-func checkAlias(where string, d decoded, src []byte, start, prefix int, newBuf bool) *vstat.Violation {
-	if d.ln == 0 {
-		return nil
-	}
+// checkAlias: the item was decoded from src[start:] and has a prefix of `prefix` bytes; pristine is what src holds
+// (spare capacity included).
+// newBuf=false -> a non-empty result is exactly src[start+prefix:][:len]. newBuf=true -> the result's backing array
+// res[:cap(res)] (whatever its length, 0 included) does not overlap the memory of src, and appending to the result
+// as its owner would leaves src unchanged.
+func checkAlias(where string, d decoded, src []byte, start, prefix int, newBuf bool, pristine []byte) *vstat.Violation {
 	if !newBuf {
+		if d.ln == 0 {
+			return nil
+		}
 		wantPtr := uintptr(unsafe.Pointer(&src[start+prefix]))
 		if d.ptr != wantPtr {
 			return vstat.V("xbin:nocopy-not-aliasing", "%s: the result does not start at source[%d] (newBuf=false must return the input range)", where, start+prefix)
 		}
 		return nil
 	}
-	if inside(d.ptr, d.ln, src) {
-		return vstat.V("xbin:newbuf-aliases-source", "%s: the result lies inside the source buffer", where)
+	if d.capLn > 0 && inside(d.capPtr, d.capLn, src) {
+		return vstat.V("xbin:newbuf-aliases-source", "%s: the result (len %d, cap %d) is backed by the source buffer", where, d.ln, d.capLn)
+	}
+	if d.grow != nil {
+		d.grow()
+		if !bytes.Equal(src[:cap(src)][:len(pristine)], pristine) {
+			return vstat.V("xbin:newbuf-append-corrupts-source", "%s: appending to the decoded value (len %d, cap %d) changed the source buffer", where, d.ln, d.capLn)
+		}
+	}
+	return nil
+}
+
+// checkSurvives: a non-empty newBuf=true result keeps its value when every byte of the item's encoding in src is
+// flipped (src is left flipped).
+func checkSurvives(where string, d decoded, src []byte, start, prefix int, newBuf bool) *vstat.Violation {
+	if !newBuf || d.ln == 0 {
+		return nil
 	}
 	flip(src[start : start+prefix+d.ln])
 	if !d.same() {
